@@ -31,6 +31,8 @@ FIELD_SETS = [
     ['a', 'Y(H2)', 'b', 'Y(CH2(S))', 'mag_vort'],
     ['x_velocity', 'y_velocity', 'density', 'Y(N2)', 'volFrac', 'myfield'],
     ['density', 'temp', 'rhoh', 'divu', 'Y(AR)', 'Y(O)', 'I_R(O)'],
+    # names the database does not know, one a prefix of the other, one with regex metacharacters
+    ['Z', 'temp', 'Zvar', 'c(x)'],
 ]
 
 
@@ -90,22 +92,36 @@ def parse_table(out):
     return cells
 
 
-def check_menu(mods, ref, opts, ctx, canary=False):
+PRIOR_FIELDS = ['x_velocity', 'pressure', 'Y(N2)', 'otherfield', 'Y(HO2)']
+
+
+def check_menu(mods, ref, opts, ctx, canary=False, history=False):
     mod = mods['amr_kitchen.menu.menu']
     fs = SymFS()
     ref.write_symfs(fs, '/work/plt')
     obl = Obl(ctx)
     min_max, finest = opts
     what = 'Menu(min_max=%r, finest_lv=%r)' % (min_max, finest)
+    if history:
+        # a history in one process: the menu of another plotfile (other fields, other species) is shown first
+        Ref('o', ref.ndims, PRIOR_FIELDS, ref.ncell[0], [ref.boxes[0]], lo=ref.lo, dx0=ref.dx[0]).write_symfs(fs, '/work/other')
+        what = "Menu('other' with fields %s); %s" % (PRIOR_FIELDS, what)
     saved = dict(mod.Menu.field_info)
     try:
         with patch.Patched(mods, fs, stubs={'amr_kitchen.plotfile_cooker': {'float': sym_float}}), common.quiet() as buf:
+            if history:
+                try:
+                    mod.Menu('other', min_max=True)
+                    mod.Menu('other')
+                except Exception:
+                    pass
+            pos0 = len(buf.getvalue())
             try:
                 mod.Menu('plt', min_max=min_max, finest_lv=finest)
             except Exception as e:
                 obl.fail('%s raised %s: %s' % (what, type(e).__name__, str(e)[:100]))
                 return obl
-        out = buf.getvalue()
+            out = buf.getvalue()[pos0:]
         if min_max or finest:
             cells = parse_table(out)
             names = [c[0] for c in cells if c[0]]
@@ -289,6 +305,8 @@ def run_case(case):
               ('menu/min_max', lambda ctx: check_menu(mods, ref, (True, False), ctx)),
               ('menu/finest', lambda ctx: check_menu(mods, ref, (False, True), ctx)),
               ('menu/min_max+finest', lambda ctx: check_menu(mods, ref, (True, True), ctx)),
+              ('menu/default/history', lambda ctx: check_menu(mods, ref, (False, False), ctx, history=True)),
+              ('menu/min_max/history', lambda ctx: check_menu(mods, ref, (True, False), ctx, history=True)),
               ('marinate', lambda ctx: check_marinate(mods, ref, ctx)),
               ('nonfinite', lambda ctx: check_nonfinite(mods, case, ctx))]
     for name, fn in checks:
@@ -405,6 +423,8 @@ def make_replay(ref, v, case=None):
     val = common.Valuation(v.get('model'))
     val.defaults.setdefault('time', -0.4375)
     replay_lib.materialise_ref(ref, os.path.join(d, 'plt'), val)
+    if 'history' in v['tool']:
+        replay_lib.materialise_ref(Ref('o', ref.ndims, PRIOR_FIELDS, ref.ncell[0], [ref.boxes[0]], lo=ref.lo, dx0=ref.dx[0]), os.path.join(d, 'other'), common.Valuation())
     case = {'property': 'C18', 'handler': 'c18', 'signature': v['signature'], 'what': v['what'], 'tool': v['tool'], 'fields': ref.fields, 'nlev': ref.nlev,
             'time': float(val(ref.time)),
             'mins': [[[float(val(x)) for x in row] for row in lv] for lv in ref.mins], 'maxs': [[[float(val(x)) for x in row] for row in lv] for lv in ref.maxs]}
